@@ -3,6 +3,7 @@
 from __future__ import annotations
 
 import io
+import os
 import signal
 import subprocess
 import struct
@@ -194,14 +195,52 @@ class Loader:
         gb.Channel.__init__ = counting_init
         self.bucket: list[bytes] = []
         self._n_since_arm = 10**9
+        self._since_watch = 0
+        self._pending_watch = False
+        self._state0 = self.interpreter_state()
+
+    @staticmethod
+    def interpreter_state():
+        """process-wide settings a load has no business touching"""
+        import gc
+        import threading
+        import warnings
+
+        return {"gc_enabled": gc.isenabled(), "gc_threshold": gc.get_threshold(), "recursionlimit": sys.getrecursionlimit(),
+                "switchinterval": sys.getswitchinterval(), "warning_filters": len(warnings.filters), "threads": threading.active_count(),
+                "cwd": os.getcwd(), "stdout": id(sys.stdout), "stderr": id(sys.stderr), "int_max_str_digits": sys.get_int_max_str_digits(),
+                "sigint": signal.getsignal(signal.SIGINT), "trace": sys.gettrace(), "modules_execnet": sum(1 for m in sys.modules if m.startswith("execnet"))}
+
+    def watch_state(self, data: bytes, kind: str):
+        now = self.interpreter_state()
+        if now != self._state0:
+            import gc
+
+            changed = {k: (self._state0[k], now[k]) for k in now if now[k] != self._state0[k]}
+            self.res.violation("loads-changed-interpreter-state:" + ",".join(sorted(changed)),
+                               f"{changed} after loading [{kind}] hex={data.hex()[:200]} (or one of the {self._since_watch} inputs before it)")
+            if not now["gc_enabled"]:
+                gc.enable()
+            self._state0 = self.interpreter_state()
+        self._since_watch = 0
 
     def check(self, data: bytes, kind: str, must_fail: bool = False, via_load: bool = False):
         res = self.res
+        self._since_watch += 1
+        if self._since_watch >= 64 or len(data) < 3:
+            # (short inputs - wrong version byte, empty, immediate STOP - take the rarely travelled exits: looked at one by one)
+            if len(data) < 3 and self._since_watch > 1:
+                self.watch_state(data, kind + ":before")
+            self._pending_watch = True
+        else:
+            self._pending_watch = False
         if amplifying(data):
             self.bucket.append(data)
             res.count("routed_to_memory_bucket")
             return
         self._run(data, kind, must_fail, via_load)
+        if self._pending_watch:
+            self.watch_state(data, kind)
 
     def _run(self, data, kind, must_fail=False, via_load=False, in_bucket=False):
         res = self.res
